@@ -7,3 +7,4 @@
 import SymmModel.Props.C12
 import SymmModel.Props.C08b
 import SymmModel.Props.C12b
+import SymmModel.Props.C12c
